@@ -1,6 +1,6 @@
 (* C07 — File conflicts follow replaces/origin rules; the installed DB tells
    the truth. Property theorems only; proofs in Proofs/InstallProofs.v. *)
-From Apko Require Import Base.Prelude Base.C07Lib Generated.C07Install Generated.FsConsts Model.Install Model.InstallInode Model.InstallDb Model.InstallRead Spec.InstallSpec Proofs.InstallProofs Proofs.InstallProvProofs Proofs.InstallInodeProofs Proofs.InstallDbProofs Proofs.InstallReadProofs.
+From Apko Require Import Base.Prelude Base.C07Lib Generated.C07Install Generated.FsConsts Model.Install Model.InstallInode Model.InstallDb Model.InstallRead Model.InstallLinkWin Spec.InstallSpec Proofs.InstallProofs Proofs.InstallProvProofs Proofs.InstallInodeProofs Proofs.InstallDbProofs Proofs.InstallReadProofs Proofs.InstallLinkWinProofs.
 Open Scope string_scope. Open Scope list_scope.
 
 (* tarfs.writeHeader decides exactly by the rule table whenever at least one of
@@ -574,3 +574,29 @@ Theorem c07_reader_view_by_name_refuted : exists f,
   fs_get (lazy_view wit_f17_pkgs (f_fs f)) ["usr"; "bin"; "lx"] = Some (NFile 3 493 (Some 0) true).
 Proof. eexists. split; [vm_compute; reflexivity|]. split; vm_compute; reflexivity. Qed.
 Print Assumptions c07_reader_view_by_name_refuted.
+
+(* ==== which link wins on tarfs ==================================================
+   When packages ship one path as a symbolic link with DIFFERENT targets, tarfs
+   lets the rule table decide (the streaming backends fail the build, C07-F6) and
+   some records go stale (C07-F5). WHICH link the tree then holds is the one
+   [sym_winner] names: the headers of the path, in install order, each meeting the
+   link in place through writeHeader's decision. For every package list in which
+   the path is shipped as a link only and was not in the tree before - so a link
+   record of the database is true exactly when its target is the winner's. *)
+Theorem c07_lazy_link_winner_by_rules : forall pkgs init f p k h,
+  install Lazy pkgs init = RDone f ->
+  fs_get init p = None ->
+  (forall x, In x (all_hdrs pkgs) -> h_path x = p -> h_kind x = KSym) ->
+  sym_winner pkgs p = Some (k, h) ->
+  fs_get (f_fs f) p = Some (NSym (h_sum h) (Some k) (h_link h)).
+Proof. exact lazy_link_winner. Qed.
+Print Assumptions c07_lazy_link_winner_by_rules.
+
+Example c07_lazy_link_winner_inhabited :
+  sym_winner [ {| p_name := "a"; p_origin := "o"; p_replaces := []; p_files := wit_dirs ++ [wit_sx 2] |};
+               {| p_name := "b"; p_origin := "o"; p_replaces := []; p_files := wit_dirs ++ [wit_sx 3] |} ]
+             ["usr"; "bin"; "sx"] = Some (1, wit_sx 3) /\
+  sym_winner [ {| p_name := "a"; p_origin := "a"; p_replaces := ["b"]; p_files := wit_dirs ++ [wit_sx 2] |};
+               {| p_name := "b"; p_origin := "a"; p_replaces := []; p_files := wit_dirs ++ [wit_sx 3] |} ]
+             ["usr"; "bin"; "sx"] = Some (0, wit_sx 2).
+Proof. exact lazy_link_winner_witness. Qed.
